@@ -194,6 +194,12 @@ mut("c14-interrupted-propagated", ["C14"], "blocking reader propagates Interrupt
     [(RD, "                Err(e) if e.kind() == io::ErrorKind::Interrupted =>\n                    continue,\n", "")])
 mut("c14-writer-prefix-le", ["C14"], "blocking writer writes the length prefix little-endian",
     [(WRI, "let prefix = (self.buffer.len() as u32 - 4).to_be_bytes();", "let prefix = (self.buffer.len() as u32 - 4).to_le_bytes();")])
+mut("c16-async-writer-maxlen-off-by-one", ["C16"], "AsyncWriter accepts a payload one byte above max_len (found by the mutation sweep)",
+    [("minicbor-io/src/async_writer.rs", "if self.buffer.len() - 4 > self.max_len {", "if self.buffer.len() - 5 > self.max_len {")])
+mut("c15-async-reader-maxlen-ge", ["C15"], "AsyncReader refuses a frame of exactly max_len bytes (found by the mutation sweep)",
+    [("minicbor-io/src/async_reader.rs", "if len > self.max_len {", "if len >= self.max_len {")])
+mut("c14-reader-default-max-len", ["C14"], "the blocking Reader's default maximum is 513 KiB (found by the mutation sweep)",
+    [("minicbor-io/src/reader.rs", "Self { reader, buffer, max_len: 512 * 1024 }", "Self { reader, buffer, max_len: 513 * 1024 }")])
 mut("c14-writer-with-buffer-stale", ["C14"], "a Writer built with_buffer keeps the content its scratch buffer arrived with",
     [("minicbor-io/src/writer.rs", "        self.buffer.resize(4, 0u8);\n", "        if self.buffer.len() < 4 { self.buffer.resize(4, 0u8) }\n")])
 mut("c14-reader-buffer-only-grows", ["C14"], "the blocking reader never shrinks its buffer: a short frame after a long one is decoded from a buffer with stale tail and the payload read swallows the next frame",
